@@ -62,8 +62,8 @@ SPEC = dict(
                  'g++ 12 ASan/UBSan/LSan and valgrind memcheck report what they claim to report'],
     legs=[
         Leg('regress', 'h_msgroundtrip', 'asan', opts={'mode': 'regress'}, quick=1, thorough=1, workers=1, leaks=True, min_cases=1),
-        Leg('roundtrip', 'h_msgroundtrip', 'asan', opts={'mode': 'roundtrip'}, quick=30000, thorough=3000000, workers=16, leaks=True),
-        Leg('product', 'h_msgroundtrip', 'asan', opts={'mode': 'product'}, quick=1890, thorough=63000, workers=16, leaks=True),
+        Leg('roundtrip', 'h_msgroundtrip', 'asan', opts={'mode': 'roundtrip'}, quick=30000, thorough=750000, workers=16, leaks=True),
+        Leg('product', 'h_msgroundtrip', 'asan', opts={'mode': 'product'}, quick=1890, thorough=47250, workers=16, leaks=True),
         Leg('memcheck', 'h_msgroundtrip', 'plain', opts={'mode': 'roundtrip'}, quick=1000, thorough=20000, workers=16, valgrind=True),
     ],
     min_stats={'regress': {'regress_messages': 40}, 'roundtrip': _cells, 'product': _product},
